@@ -1,6 +1,6 @@
 SPECIFICATION Spec
 CONSTANTS
-  Circuits = {"p1", "pub2", "c1p", "c3r", "arith", "hint", "lookup2", "range", "commit", "emul", "defer", "logs", "selector", "wide"}
+  Circuits = {"p1", "pub2", "c1p", "c3r", "arith", "hint", "lookup2", "range", "commit", "emul", "defer", "logs", "selector", "wide", "gkr"}
   Emit = TRUE
 INVARIANT Interchangeable
 CHECK_DEADLOCK FALSE
